@@ -36,8 +36,8 @@ func init() {
 }
 
 func c19ProfileOf(fingerprint string) string {
-	if i := strings.LastIndex(fingerprint, "/C19"); i > 0 && strings.HasPrefix(fingerprint, "C19.urn-hidden-without-policy/") {
-		return fingerprint[i+1:]
+	if i := strings.LastIndex(fingerprint, "/C19"); i > 0 && !strings.Contains(fingerprint[i+1:], "/") {
+		return fingerprint[i+1:] // single-world oracles name the profile they fired in
 	}
 	if strings.HasPrefix(fingerprint, "C19.twin-differs-after-policy-on/") {
 		return "C19f"
@@ -136,7 +136,7 @@ func c19Worker(prop, tier string, seed uint64, from, to, stride int, deadline in
 					res.Extra["unredacted_twins_differ"]++
 				}
 			}
-			if !strings.HasPrefix(fp, "C19.urn-hidden-without-policy/") {
+			if !strings.HasPrefix(fp, "C19.urn-hidden-without-policy/") && !strings.HasPrefix(fp, "C19.policy-not-applied/") {
 				continue // twins that differ without the policy are what is expected
 			}
 		}
